@@ -241,7 +241,7 @@ func runJob(l *loaded, h *HarnessSpec, params []int, tier string, known map[stri
 	defer sol.Close()
 	e := &Engine{prog: l.prog, ts: ts, sol: sol, maxFork: 64, maxUnwind: 64, maxSteps: 2000000, maxPaths: 200000,
 		redirects: map[string]*ssa.Function{}, initPkgs: map[string]bool{}, known: known, trace: trace,
-		fnsSeen: map[string]bool{}, modelsUsed: map[string]bool{}, harnessPkg: spkg, noIfConv: os.Getenv("VERIF_NO_IFCONV") != ""}
+		fnsSeen: map[string]bool{}, modelsUsed: map[string]bool{}, harnessPkg: spkg, noIfConv: os.Getenv("VERIF_NO_IFCONV") != "", ifSites: map[siteKey]*siteStat{}}
 	e.opaqueErrT = types.NewPointer(types.NewNamed(types.NewTypeName(0, nil, "opaqueError", nil), types.NewStruct(nil, nil), nil))
 	if h.Unwind > 0 {
 		e.maxUnwind = h.Unwind
